@@ -25,7 +25,9 @@ type StopInfo struct {
 // the connections.
 func (f *Flow) OnStop(s *Sim) {
 	w := f.W
-	f.pollExchanges()
+	if !s.ended {
+		f.pollExchanges()
+	}
 	si := &StopInfo{Gen: w.Gen, Step: w.Steps, Lower: map[int]bool{}, Upper: map[int]bool{}, Rel: map[int]bool{}, RelMaybe: map[int]bool{}}
 	for _, pb := range f.Pubs {
 		onDisk := false
